@@ -3,6 +3,7 @@ package rt
 import (
 	"fmt"
 	"io"
+	"log"
 	"runtime"
 	"time"
 
@@ -16,6 +17,7 @@ func init() {
 	l.SetLevel(logrus.PanicLevel)
 	frugal.SetLogger(l)
 	logrus.SetOutput(io.Discard)
+	log.SetOutput(io.Discard) // the embedded STOMP broker logs through the std logger
 }
 
 // within runs f and reports whether it returned within d. A panic inside f is
